@@ -104,11 +104,47 @@ def expect(spec: dict) -> dict:
             return {"verdict": "reject"}
         if log.lower() != log and log.upper() != log:
             lenient = True
+    if spec.get("sp"):
+        # abbreviated option names and an option given twice with the same value: conventions of the
+        # option parser the documentation does not mention; rejection without output, or the plain meaning
+        lenient = True
     return {"verdict": "accept", "mask": mask, "inp": decl["inp"], "out": decl["out"], "lenient": lenient}
 
 
+OPTION_NAMES = {"enable": "--enable", "inp": "--input-predicates", "out": "--output-predicates", "log": "--log"}
+
+
+def abbreviations(key: str) -> list[str]:
+    """every proper prefix of the long option that no other long option of the documented set shares"""
+    full = OPTION_NAMES[key]
+    others = [o for k, o in OPTION_NAMES.items() if k != key] + ["--version", "--help"]
+    return [full[:n] for n in range(3, len(full)) if not any(o.startswith(full[:n]) for o in others)]
+
+
 def render(spec: dict, rng) -> list[str]:
-    """one of the argv spellings of the spec; option order is seeded"""
+    """one of the argv spellings of the spec; option order is seeded.
+    spec["sp"] = {"abbrev": {key: "--en"}, "repeat": [key]}: abbreviated option names; options given
+    twice with the same value (both occurrences take part in the shuffle)"""
+    parts = _render_parts(spec, rng)
+    sp = spec.get("sp") or {}
+    for key in sp.get("repeat", []):
+        full = OPTION_NAMES[key]
+        for p in list(parts):
+            if p[0] == full or p[0].startswith(full + "="):
+                parts.append(list(p))
+                break
+    for key, short in sorted((sp.get("abbrev") or {}).items()):
+        full = OPTION_NAMES[key]
+        for p in parts:
+            if p[0] == full:
+                p[0] = short
+            elif p[0].startswith(full + "="):
+                p[0] = short + p[0][len(full) :]
+    rng.shuffle(parts)
+    return [a for p in parts for a in p]
+
+
+def _render_parts(spec: dict, rng) -> list[list[str]]:
     parts = []
     if spec.get("enable") is not None:
         en = list(spec["enable"])
@@ -128,8 +164,7 @@ def render(spec: dict, rng) -> list[str]:
             parts.append([opt, v])
     if spec.get("log") is not None:
         parts.append(["--log", spec["log"]] if rng.random() < 0.5 else [f"--log={spec['log']}"])
-    rng.shuffle(parts)
-    return [a for p in parts for a in p]
+    return parts
 
 
 def expected_stdout(statements: list[str]) -> bytes:
